@@ -41,7 +41,7 @@ REQUIRED = [
     "configure_strict_needs_explicit_storage", "configure_default_is_fs", "configure_unknown_storage", "configure_backend_kind",
     "configure_failure_keeps_backend", "azure_new_ok", "vault_new_ok",
     # deepening round 3: key export command crypto/cmd fs2vault (NutsProofs.Props.C03Exp)
-    "fact_export_loop_shape", "fact_export_error_wording", "fact_fs2vault_target_wrapped", "wrappedSave_gated", "wrappedPut_gated",
+    "fact_export_loop_shape", "fact_export_error_wording", "fact_fs2vault_target_wrapped", "fact_export_uses_the_nodes_validation", "wrappedSave_gated", "wrappedPut_gated",
     "export_lists_only_listed_names", "export_target_entries_valid_and_faithful", "export_output_independent_of_key_material",
     "fs2vault_new_entries_confined", "export_target_keeps_names", "export_success_means_all_listed_present", "wrappedSave_dup", "wrappedPut_dup",
     "fact_pem_switch_tables", "pem_signer_only_from_private_block", "pem_public_decoder_refuses_private_blocks", "pem_other_block_is_nil_without_error",
@@ -809,6 +809,9 @@ def run(ctx):
                        "(f) external secret-store backend behind the wrapper against a recording loopback server: request targets vs pathEscape∘pathEscape model. "
                        "(g) backend wiring: real NewCryptoInstance+Configure for listed / unknown / case- and blank-variant storage settings x strict mode x constructor faults (Vault token lookup data/empty/404/403 "
                        "from a loopback server, bad addresses, data dir that is a file, Azure URL / credential variants), then a call by valid / path-like name on the installed backend, vs NutsModel/C03/Configure.lean interpreting the regenerated switch. "
+                       "(h) key export command: real crypto/cmd fsToOtherStorage over generated key directories (hostile / well-formed names, other separators, sub-directories, undecodable files) into a recording backend "
+                       "behind the real wrapper (present names, injected failures) and the real cobra command fs2vault against a recording Vault stub, vs NutsModel/C03/Export.lean (loop + wrapper + fs listing + Vault path). "
+                       "(i) util.PemToPrivateKey / PemToPublicKey on 10 DER kinds x 9 block types vs NutsModel/C03/Pem.lean interpreting the regenerated switch tables. "
                        "distinct_nontrivial = distinct names / (dir,name) / (prefix,name) / key-store ops by position / header maps")
     ctx.cov["input_distribution"] = dist
     if "fs" in outs and outs["fs"][1]:
